@@ -41,6 +41,13 @@ pub fn run(config: Config) -> ::anyhow::Result<()> {
         ));
     }
 
+    if config.protocol.max_peers > config::MAX_PEERS_LIMIT {
+        return Result::Err(anyhow::anyhow!(
+            "protocol.max_peers can not be larger than {}, since responses would not fit in the response buffer",
+            config::MAX_PEERS_LIMIT
+        ));
+    }
+
     let state = State::default();
 
     update_access_list(&config.access_list, &state.access_list)?;
